@@ -283,10 +283,10 @@ def run_check(spec, tier="quick", root="/repo", seed=0):
         json.dump(ev, f, indent=1, default=str)
     print("%s: %d obligations, %d discharged, %d violations, %d undecided, %d known findings, %.1fs"
           % (pid, len(obl), discharged, len(report["violations"]), len(report["undecided"]), len(report["known"]), wall))
+    if report["violations"]:
+        return 1      # a violation found stands, whatever else went wrong in the checker (the crash lines are printed too)
     if report["crashes"]:
         return 3
-    if report["violations"]:
-        return 1
     if report["undecided"]:
         return 2
     return 0
